@@ -123,7 +123,9 @@ class C05(Check):
             xyz, _ = cats.points_around(rng, centres, n_each, r)
             xyz = np.concatenate([xyz, centres])
             ra, dec = gen.xyz_to_radec(xyz)
-            return cats.create(tmp / "base" / name, cats.table(ra, dec, z=rng.uniform(0.1, 1.0, len(ra)),
+            z = rng.uniform(0.1, 1.0, len(ra))
+            z[rng.choice(len(z), len(z) // 3, replace=False)] = rng.choice([0.1, 0.4, 0.7, 1.0], len(z) // 3)  # exactly on bin edges
+            return cats.create(tmp / "base" / name, cats.table(ra, dec, z=z,
                                                                w=rng.uniform(0.5, 2, len(ra)) if w else None), centers=cobj)
 
         (tmp / "base").mkdir()
@@ -132,13 +134,15 @@ class C05(Check):
         mk("rr", rng.integers(10, 30, P), False)
         mk("ur", rng.integers(10, 30, P), False)
 
+    closed = "right"
+
     def _run_all(self, tmp, tag, max_workers, entry="all"):
         """Run every entry point on a fresh copy of the base caches; returns dict of serialisations."""
         import yaw
         from yaw import Catalog, Configuration, HistData
 
         work = tmp / tag
-        cfg = Configuration.create(rmin=[0.02, 0.1], rmax=[0.3, 1.0], unit="deg", edges=[0.1, 0.4, 0.7, 1.0])
+        cfg = Configuration.create(rmin=[0.02, 0.1], rmax=[0.3, 1.0], unit="deg", edges=[0.1, 0.4, 0.7, 1.0], closed=self.closed)
         res = {}
         # loading with the metadata computation forced (meta.yml removed) on a separate copy
         shutil.copytree(tmp / "base", work)
@@ -149,7 +153,7 @@ class C05(Check):
         shutil.copytree(tmp / "base", work)
         c = {k: Catalog(work / k, max_workers=max_workers) for k in ("ref", "unk", "rr", "ur")}
         res["load"] = "|".join(ser_catalog(c[k]) for k in c)
-        c["ref"].build_trees(cfg.binning.edges, closed="right", max_workers=max_workers)
+        c["ref"].build_trees(cfg.binning.edges, closed=self.closed, max_workers=max_workers)
         res["trees"] = ser_trees(c["ref"])
         res["hist_data"], res["hist_samples"] = ser_hist(HistData.from_catalog(c["ref"], cfg, max_workers=max_workers))
         if entry == "all":
@@ -175,6 +179,7 @@ class C05(Check):
             out.append(result(VIOLATED, mechanism=mech, detail=dict(case=case, **detail), nontrivial=False))
 
         P = case.get("P", 4)
+        self.closed = "left" if case["seed"] % 2 else "right"  # objects pickled to workers must keep the closed side
         nontrivial = True
         with Scratch("c05") as tmp:
             self._build_world(tmp, rng, P)
